@@ -22,15 +22,115 @@ TABLE = os.path.join(os.path.dirname(os.path.dirname(os.path.abspath(__file__)))
 MAXD = 3
 
 
-def known():
+def known_table():
     try:
-        return set(json.load(open(TABLE, encoding="utf-8"))["functions"])
+        return json.load(open(TABLE, encoding="utf-8"))["functions"]
     except OSError:
         return None
 
 
+def known():
+    t = known_table()
+    return None if t is None else set(t)
+
+
+def signature(body):
+    """parameter types + return type of a MIR body (text as rustc prints it)"""
+    return [body["locals"][i]["ty"] for i in range(1, body["arg_count"] + 1)] + ["-> " + body["locals"][0]["ty"]]
+
+
 def fn_paths(facts):
-    return sorted({facts.norm(p) for p, it in facts.hir.items() if it["defkind"] in ("Fn", "AssocFn")})
+    """{normalised path: {"sig": signature}} of every function of the crate"""
+    mir_by_norm = {facts.norm(p): b for p, b in facts.mir.items() if b.get("promoted") is None}
+    out = {}
+    for p, it in facts.hir.items():
+        if it["defkind"] in ("Fn", "AssocFn"):
+            n = facts.norm(p)
+            b = mir_by_norm.get(n)
+            out[n] = {"sig": signature(b) if b is not None else None}
+    return dict(sorted(out.items()))
+
+
+# ---- renamed private functions -----------------------------------------------------------------------------------------------------------
+def apply_renames(facts):
+    """A reviewed function that is gone while a NEW function with the same parent (module / impl), the same signature and no public
+    visibility appeared is that function under another name (unique candidate only).  The fact base is rewritten to the reviewed name --
+    item, MIR body and every call reference -- so that anchors, tables and keys keep working; the mapping is reported in the evidence."""
+    tab = known_table()
+    if tab is None:
+        return {}
+    cur_mir = {facts.norm(p): (p, b) for p, b in facts.mir.items() if b.get("promoted") is None and b["defkind"] in ("Fn", "AssocFn")}
+    cur = set(facts.norm(p) for p, it in facts.hir.items() if it["defkind"] in ("Fn", "AssocFn"))
+    gone = [k for k in tab if k not in cur and "::tests::" not in k and "::test::" not in k and isinstance(tab[k], dict) and tab[k].get("sig")]
+    new = [n for n in cur if n not in tab and "::tests::" not in n and "::test::" not in n]
+    mapping = {}
+    used = set()
+    for old in gone:
+        parent = old.rsplit("::", 1)[0]
+        cands = [n for n in new if n.rsplit("::", 1)[0] == parent and n in cur_mir and n not in used
+                 and signature(cur_mir[n][1]) == tab[old]["sig"] and "Public" not in str(cur_mir[n][1].get("vis"))]
+        if len(cands) == 1:
+            mapping[cands[0]] = old
+            used.add(cands[0])
+    if not mapping:
+        return {}
+    names = {n.rsplit("::", 1)[-1]: o.rsplit("::", 1)[-1] for n, o in mapping.items()}
+
+    def fix_path(sv):
+        """a def-path string that denotes a renamed function -> the same string with the reviewed name"""
+        if not isinstance(sv, str) or "::" not in sv:
+            return sv
+        n = facts.norm(sv)
+        if n in mapping:
+            last = n.rsplit("::", 1)[-1]
+            i = sv.rfind("::" + last)
+            if i >= 0:
+                return sv[:i] + "::" + names[last] + sv[i + 2 + len(last):]
+        # closures and other items nested in a renamed function
+        for nn, oo in mapping.items():
+            if n.startswith(nn + "::"):
+                last = nn.rsplit("::", 1)[-1]
+                j = sv.find("::" + last + "::")
+                if j >= 0:
+                    return sv[:j] + "::" + names[last] + sv[j + 2 + len(last):]
+        return sv
+
+    def walk(x):
+        if isinstance(x, list):
+            for y in x:
+                walk(y)
+            return
+        if not isinstance(x, dict):
+            return
+        hit = False
+        for k in ("def", "resolved", "def_with_args", "path", "parent", "closure"):
+            v = x.get(k)
+            if isinstance(v, str):
+                v2 = fix_path(v)
+                if v2 != v:
+                    x[k] = v2
+                    hit = hit or k in ("def", "resolved", "path")
+        if hit:
+            for k in ("name", "method", "text"):
+                if x.get(k) in names:
+                    x[k] = names[x[k]]
+        for v in x.values():
+            if isinstance(v, (dict, list)):
+                walk(v)
+
+    walk(facts.raw.get("hir"))
+    walk(facts.raw.get("mir"))
+    # rebuild the indices under the reviewed paths
+    facts.hir = {}
+    for it in facts.raw["hir"]:
+        facts.hir.setdefault(it["path"], it)
+    facts.mir, facts.promoted = {}, {}
+    for b in facts.raw["mir"]:
+        if b.get("promoted") is not None:
+            facts.promoted[(b["path"], b["promoted"])] = b
+        else:
+            facts.mir.setdefault(b["path"], b)
+    return mapping
 
 
 def _simple(e):
@@ -45,25 +145,43 @@ def _simple(e):
     return False
 
 
-def _rename(n, tag, subst):
-    """deep copy of `n` with helper-local ids prefixed and parameter uses substituted"""
+def _bound_hids(n, acc=None):
+    """ids of every binding introduced inside `n` (parameters, lets, arm patterns, nested closure parameters)"""
+    acc = set() if acc is None else acc
     if isinstance(n, list):
-        return [_rename(x, tag, subst) for x in n]
+        for x in n:
+            _bound_hids(x, acc)
+    elif isinstance(n, dict):
+        if n.get("k") == "Binding" and isinstance(n.get("hid"), str):
+            acc.add(n["hid"])
+        for v in n.values():
+            if isinstance(v, (dict, list)):
+                _bound_hids(v, acc)
+    return acc
+
+
+def _rename(n, tag, subst, bound=None):
+    """deep copy of `n` with helper-local ids prefixed and parameter uses substituted; `bound` (closures): only these ids are the helper's
+    own, every other local is a captured variable of the enclosing function and keeps its id"""
+    if isinstance(n, list):
+        return [_rename(x, tag, subst, bound) for x in n]
     if not isinstance(n, dict):
         return n
     if n.get("k") == "Path" and isinstance(n.get("path"), dict) and n["path"].get("res") == "local":
         h = n["path"].get("hid")
         if h in subst:
             return copy.deepcopy(subst[h])
+        if bound is not None and h not in bound:
+            return copy.deepcopy(n)
         m = dict(n)
         m["path"] = dict(n["path"], hid="%s:%s" % (tag, h))
         return m
     out = {}
     for k, v in n.items():
-        if k == "hid" and isinstance(v, str):
+        if k == "hid" and isinstance(v, str) and (bound is None or v in bound):
             out[k] = "%s:%s" % (tag, v)
         else:
-            out[k] = _rename(v, tag, subst)
+            out[k] = _rename(v, tag, subst, bound)
     return out
 
 
@@ -85,9 +203,43 @@ class Inliner:
         self.count = 0
         self.sites = []
         self.mir_sites = []
+        self.closures = {}
+
+    def scan_closures(self, body):
+        """{hid: closure node} of the immutable `let f = |..| ..;` bindings of a function body whose EVERY use is a call `f(..)`: such a
+        closure is a local helper and is as transparent as a new private function (`closure -> method` and back are then no difference)"""
+        import hir as H
+        cl, uses, calls = {}, {}, {}
+        for n in H.walk(body):
+            if n.get("k") == "Let" and isinstance(n.get("init"), dict) and n["pat"].get("k") == "Binding" and not n["pat"].get("sub") \
+                    and "Mut" not in (n["pat"].get("mode") or "").split(",")[-1]:
+                i_ = n["init"]
+                while i_.get("k") == "Block" and not i_["stmts"] and i_.get("expr"):
+                    i_ = i_["expr"]
+                if i_.get("k") == "Closure":
+                    cl[n["pat"]["hid"]] = (i_, n)
+        if not cl:
+            return {}
+        for n in H.walk(body):
+            if n.get("k") == "Path" and n.get("path", {}).get("res") == "local" and n["path"].get("hid") in cl:
+                uses[n["path"]["hid"]] = uses.get(n["path"]["hid"], 0) + 1
+            if n.get("k") == "Call":
+                f_ = n["f"]
+                while f_.get("k") == "Block" and not f_["stmts"] and f_.get("expr"):
+                    f_ = f_["expr"]
+                if f_.get("k") == "Path" and f_.get("path", {}).get("res") == "local" and f_["path"].get("hid") in cl:
+                    calls[f_["path"]["hid"]] = calls.get(f_["path"]["hid"], 0) + 1
+        return {h: v for h, v in cl.items() if uses.get(h, 0) == calls.get(h, 0) and uses.get(h, 0) > 0}
 
     def callee_item(self, n):
         d = None
+        if n.get("k") == "Call":
+            f_ = n["f"]
+            while f_.get("k") == "Block" and not f_["stmts"] and f_.get("expr"):
+                f_ = f_["expr"]
+            if f_.get("k") == "Path" and f_.get("path", {}).get("res") == "local" and f_["path"].get("hid") in self.closures:
+                c, let = self.closures[f_["path"]["hid"]]
+                return {"path": "closure:%s" % f_["path"]["hid"], "params": c.get("params", []), "body": c["body"]}
         if n.get("k") == "MethodCall":
             d = n.get("def")
         elif n.get("k") == "Call":
@@ -163,12 +315,13 @@ class Inliner:
                     tag = "i%d" % self.count
                     self.sites.append("%s -> %s" % (owner, it["path"]))
                     subst, lets = {}, []
+                    bound = (_bound_hids(params) | _bound_hids(it["body"])) if str(it["path"]).startswith("closure:") else None
                     for q, a in zip(params, args):
                         if q.get("k") == "Binding" and not q.get("sub") and _simple(a) and "Mut" not in (q.get("mode") or "").split(",")[-1]:
                             subst[q["hid"]] = a
                         else:
-                            lets.append({"k": "Let", "pat": _rename(q, tag, {}), "init": a, "els": None, "line": out.get("line")})
-                    body = _rename(it["body"], tag, subst)
+                            lets.append({"k": "Let", "pat": _rename(q, tag, {}, bound), "init": a, "els": None, "line": out.get("line")})
+                    body = _rename(it["body"], tag, subst, bound)
                     body = self.expand(body, depth + 1, stack + (it["path"],), owner)
                     while body.get("k") == "Block" and not [s for s in body["stmts"] if s.get("k") != "Item"] and body.get("expr") and not lets:
                         body = body["expr"]
@@ -371,15 +524,32 @@ def apply(facts):
     if ks is None:
         return None
     inl = Inliner(facts, ks)
-    if not inl.new:
-        return inl
     for p, it in facts.hir.items():
         if it.get("body") is None or it["defkind"] not in ("Fn", "AssocFn", "Closure"):
             continue
         if facts.norm(p) in inl.new:
             continue
+        inl.closures = inl.scan_closures(it["body"])
+        if not inl.new and not inl.closures:
+            continue
         it["body"] = inl.expand(it["body"], 0, (it["path"],), it["path"])
+        # the definitions of the closures that were expanded at their calls carry nothing any more
+        for h, (c, let) in inl.closures.items():
+            _empty_closure(it["body"], h)
+        inl.closures = {}
     return inl
+
+
+def _empty_closure(body, hid):
+    import hir as H
+    for n in H.walk(body):
+        if n.get("k") == "Let" and n["pat"].get("k") == "Binding" and n["pat"].get("hid") == hid and isinstance(n.get("init"), dict):
+            i_ = n["init"]
+            while i_.get("k") == "Block" and not i_["stmts"] and i_.get("expr"):
+                i_ = i_["expr"]
+            if i_.get("k") == "Closure":
+                i_["body"] = {"k": "Tup", "elems": [], "line": i_.get("line"), "exp": False}
+                i_["expanded_at_calls"] = True
 
 
 if __name__ == "__main__":
